@@ -1,6 +1,7 @@
 package main
 
 import (
+	"go/token"
 	"encoding/json"
 	"fmt"
 	"go/types"
@@ -57,6 +58,22 @@ func renumberRows(rows []siteRow, norm func([]string) []string) []siteRow {
 			}
 		}
 		return k[:j], true
+	}
+	// identical reads of the same map entry (same writers before them) are one row
+	{
+		seen := map[string]bool{}
+		var kept []siteRow
+		for _, row := range rows {
+			if b, ok := base(row.Key); ok && strings.Contains(b, " reads-map ") {
+				k := b + "|" + strings.Join(row.Attrs, ";")
+				if seen[k] {
+					continue
+				}
+				seen[k] = true
+			}
+			kept = append(kept, row)
+		}
+		rows = kept
 	}
 	groups := map[string][]ent{}
 	var order []string
@@ -319,17 +336,46 @@ func returnRows(c *Ctx, fn *ssa.Function) []siteRow {
 			if !ok || i.Block() == f.Recover {
 				return
 			}
+			emit := func(vals []string, conds []string) {
+				k := normRef(funcName(f) + " returns (" + strings.Join(vals, ", ") + ")")
+				if len(k) > 300 {
+					k = k[:300]
+				}
+				count[k]++
+				key := fmt.Sprintf("%s#%d", k, count[k])
+				rows = append(rows, siteRow{key, conds, i})
+			}
+			// a result chosen on the way into the return block (`r := a; if c { r = b }; return r`) is stated per
+			// incoming edge, like the separate `return a` / `return b` it stands for
+			blk := i.Block()
+			hasPhi := false
+			for _, rv := range ret.Results {
+				if phi, ok := refineAt(rv, blk).(*ssa.Phi); ok && phi.Block() == blk {
+					hasPhi = true
+				}
+			}
+			if hasPhi && len(blk.Preds) > 1 {
+				for pk, p := range blk.Preds {
+					var vals []string
+					for k, rv := range ret.Results {
+						v := refineAt(rv, blk)
+						if phi, ok := v.(*ssa.Phi); ok && phi.Block() == blk && pk < len(phi.Edges) {
+							vals = append(vals, c.ExprAt(phi.Edges[pk], p))
+						} else {
+							vals = append(vals, retExpr(c, ret, k))
+						}
+					}
+					conds := edgeGuards(c, p, blk)
+					sort.Strings(conds)
+					emit(vals, uniq(conds))
+				}
+				return
+			}
 			var vals []string
 			for k := range ret.Results {
 				vals = append(vals, retExpr(c, ret, k))
 			}
-			k := normRef(funcName(f) + " returns (" + strings.Join(vals, ", ") + ")")
-			if len(k) > 300 {
-				k = k[:300]
-			}
-			count[k]++
-			key := fmt.Sprintf("%s#%d", k, count[k])
-			rows = append(rows, siteRow{key, c.reachConds(i.Block()), i})
+			emit(vals, c.reachConds(i.Block()))
 		})
 	}
 	return rows
@@ -424,26 +470,45 @@ func effectRows(c *Ctx, fn *ssa.Function) []siteRow {
 				if _, isMap := x.X.Type().Underlying().(*types.Map); !isMap {
 					return
 				}
-				// a map read is an effect-relevant step when calls into the module may run before it (they may change the map):
-				// record which ones can precede this read, so that hoisting the read above such a call is visible
+				// a map read matters relative to what may have changed that map before it: record which preceding calls (or
+				// direct updates) can write the same map, so that hoisting the read above such a step is visible, while
+				// reading once into a local instead of three times, or earlier where nothing writes in between, is not
+				mk := mapFieldKey(x.X)
 				var before []string
 				seenB := map[string]bool{}
 				eachInstr(f, func(j ssa.Instruction) {
-					cc := callOf(j)
-					if cc == nil {
+					if !reachesAfter(j, i) {
 						return
 					}
-					n := calleeName(cc)
-					if !strings.Contains(n, "http2.") || seenB[n] {
-						return
+					n := ""
+					switch y := j.(type) {
+					case *ssa.MapUpdate:
+						if mapFieldKey(y.Map) == mk {
+							n = "map-set"
+						}
+					default:
+						cc := callOf(j)
+						if cc == nil {
+							return
+						}
+						if calleeName(cc) == "builtin.delete" && mapFieldKey(cc.Args[0]) == mk {
+							n = "map-delete"
+						} else if g := staticCallee(cc); g != nil && mk != "" && mayWriteMap(c, g, mk, 0) {
+							n = calleeName(cc)
+						}
 					}
-					if reachesAfter(j, i) {
+					if n != "" && !seenB[n] {
 						seenB[n] = true
 						before = append(before, n)
 					}
 				})
 				sort.Strings(before)
-				add("reads-map", c.Expr(x.X)+"["+c.Expr(x.Index)+"]", i, "may run after: "+strings.Join(before, ", "))
+				k := normRef(funcName(fn) + " reads-map " + c.Expr(x.X) + "[" + c.Expr(x.Index) + "]")
+				if len(k) > 260 {
+					k = k[:260]
+				}
+				count[k]++
+				rows = append(rows, siteRow{fmt.Sprintf("%s#%d", k, count[k]), []string{"may run after writers: " + strings.Join(before, ", ")}, i})
 			case *ssa.MapUpdate:
 				add("map-set", c.Expr(x.Map), i, "key "+c.Expr(x.Key), "value "+c.Expr(x.Value))
 			case *ssa.Panic:
@@ -468,9 +533,20 @@ func effectRows(c *Ctx, fn *ssa.Function) []siteRow {
 				if isLoggingCall(n) {
 					return // diagnostics have no protocol effect: adding or rewording a log line is not a deviation
 				}
+				if _, isCall := i.(*ssa.Call); isCall {
+					if g := staticCallee(cc); g != nil && observerPure(c, g, 0) {
+						return // a side-effect-free accessor: its value appears in the conditions and arguments that use it
+					}
+				}
 				var args []string
 				for _, a := range callArgs(cc) {
 					args = append(args, c.ExprAt(a, i.Block()))
+				}
+				// a helper that only forwards to another function stands for that call
+				if g := staticCallee(cc); g != nil {
+					if n2, args2, ok := forwardedCall(c, g, args); ok {
+						n, args = n2, args2
+					}
 				}
 				add("calls", n, i, "args ("+strings.Join(args, ", ")+")")
 			}
@@ -491,4 +567,147 @@ func isLoggingCall(n string) bool {
 		return true
 	}
 	return false
+}
+
+var observerPureMemo = map[*ssa.Function]int{}
+
+// observerPure: a module function that only reads: no stores outside its own locals, no map updates, sends, goroutines,
+// defers or panics, and it calls nothing but functions of the same kind (and len/cap/append-free builtins).
+func observerPure(c *Ctx, g *ssa.Function, depth int) bool {
+	if g == nil || g.Blocks == nil || !c.inModuleOrRef(g) || depth > 3 {
+		return false
+	}
+	if v, ok := observerPureMemo[g]; ok {
+		return v == 1
+	}
+	observerPureMemo[g] = 0
+	pure := true
+	eachInstr(g, func(i ssa.Instruction) {
+		if !pure {
+			return
+		}
+		switch x := i.(type) {
+		case *ssa.Store:
+			if _, ok := addrRoot(x.Addr).(*ssa.Alloc); !ok {
+				pure = false
+			}
+		case *ssa.MapUpdate, *ssa.Send, *ssa.Go, *ssa.Defer, *ssa.Panic, *ssa.Select, *ssa.RunDefers:
+			pure = false
+		case *ssa.UnOp:
+			if x.Op == token.ARROW {
+				pure = false
+			}
+		case *ssa.Call:
+			n := calleeName(&x.Call)
+			switch n {
+			case "builtin.len", "builtin.cap", "builtin.min", "builtin.max":
+				return
+			}
+			h := staticCallee(&x.Call)
+			if h == nil || !observerPure(c, h, depth+1) {
+				pure = false
+			}
+		}
+	})
+	if pure {
+		observerPureMemo[g] = 1
+	}
+	return pure
+}
+
+// forwardedCall: g's body is one call whose arguments are g's parameters or constants (and nothing else happens):
+// returns the inner callee and the arguments as seen from g's caller.
+func forwardedCall(c *Ctx, g *ssa.Function, outerArgs []string) (string, []string, bool) {
+	if g == nil || len(g.Blocks) != 1 || !c.inModuleOrRef(g) {
+		return "", nil, false
+	}
+	var call *ssa.Call
+	for _, i := range g.Blocks[0].Instrs {
+		switch x := i.(type) {
+		case *ssa.Call:
+			if call != nil {
+				return "", nil, false
+			}
+			call = x
+		case *ssa.Return, *ssa.DebugRef, *ssa.Extract:
+		default:
+			return "", nil, false
+		}
+	}
+	if call == nil || call.Call.IsInvoke() {
+		return "", nil, false
+	}
+	n := calleeName(&call.Call)
+	if n == "" || strings.HasPrefix(n, "builtin.") || isLoggingCall(n) {
+		return "", nil, false
+	}
+	var args []string
+	for _, a := range call.Call.Args {
+		switch x := a.(type) {
+		case *ssa.Parameter:
+			idx := -1
+			for k, p := range g.Params {
+				if p == x {
+					idx = k
+				}
+			}
+			if idx < 0 || idx >= len(outerArgs) {
+				return "", nil, false
+			}
+			args = append(args, outerArgs[idx])
+		case *ssa.Const:
+			args = append(args, c.Expr(x))
+		default:
+			return "", nil, false
+		}
+	}
+	return n, args, true
+}
+
+// mapFieldKey: identity of a map held in a struct field (type and field name), "" for other maps.
+func mapFieldKey(v ssa.Value) string {
+	if u, ok := v.(*ssa.UnOp); ok && u.Op == token.MUL {
+		if fa, ok := u.X.(*ssa.FieldAddr); ok {
+			return normRef(typeName(deref(fa.X.Type()))) + "." + fieldName(fa.X.Type(), fa.Field)
+		}
+	}
+	return ""
+}
+
+var mayWriteMapMemo = map[string]bool{}
+
+// mayWriteMap: g, or a function it calls statically (depth 4), updates or deletes from the map field mk.
+func mayWriteMap(c *Ctx, g *ssa.Function, mk string, depth int) bool {
+	if g == nil || g.Blocks == nil || depth > 4 {
+		return false
+	}
+	key := fmt.Sprintf("%p|%s", g, mk)
+	if v, ok := mayWriteMapMemo[key]; ok {
+		return v
+	}
+	mayWriteMapMemo[key] = false
+	res := false
+	for _, f := range withAnon(g) {
+		eachInstr(f, func(i ssa.Instruction) {
+			if res {
+				return
+			}
+			switch y := i.(type) {
+			case *ssa.MapUpdate:
+				if mapFieldKey(y.Map) == mk {
+					res = true
+				}
+			default:
+				if cc := callOf(i); cc != nil {
+					if calleeName(cc) == "builtin.delete" && mapFieldKey(cc.Args[0]) == mk {
+						res = true
+					} else if h := staticCallee(cc); h != nil && c.inModuleOrRef(h) && mayWriteMap(c, h, mk, depth+1) {
+						res = true
+					}
+				}
+			}
+		})
+	}
+	mayWriteMapMemo[key] = res
+	return res
 }
